@@ -11,8 +11,5 @@ def run(ctx):
                         "the compiled code touches only what the source says (observed with guard pages in correspondence C, not proved)"]
     ctx.prove("Props/C07.v")
     symrun.run(ctx, configs=("stable",) if ctx.tier == "quick" else ("stable", "nightly"))
-    try:
-        from checks import exprun
-        exprun.check_bounds(ctx)
-    except ImportError:
-        pass
+    from checks import exprun
+    exprun.check_bounds(ctx)
